@@ -9,6 +9,10 @@
 //                              lammpsdatareader.cc re-evaluated from the header constants:  lexpr <place> <value>
 //   lread <file> <x> <v> <f> <L>     write a one-atom dump (x,v,f per component, box L; LAMMPS units), read it
 //                                    with the real LAMMPSDumpReader:            lobs dumpreader_<q> <out/in>
+//   lstyle <file> <style> <Lx> <Ly> <Lz> <x1> <y1> <z1> <x2> <y2> <z2>
+//                                    two atoms in an orthorhombic box (Angstrom), written in coordinate style
+//                                    xyz | xs (scaled xs ys zs) | xu (unwrapped xu yu zu), read with the real
+//                                    LAMMPSDumpReader:  lobs dumpreader_pos[_xs|_xu] <nm out / Angstrom in>
 //   lwrite <file> <x> <v> <f> <L>    one-bead topology (votca units) through the real LAMMPSDumpWriter,
 //                                    numbers parsed back from the text:         lobs dumpwriter_<q> <out/in>
 //   ldata <file> <x> <L> <m> <q>     one-atom LAMMPS data file through LAMMPSDataReader::ReadTopology
@@ -253,6 +257,8 @@ int main() {
       } else if (cmd == "lexpr") {
         // the same expressions as in the three source files, from the header constants
         out << "lexpr dumpreader_pos " << 1.0 * conv::ang2nm << std::endl;
+        out << "lexpr dumpreader_pos_xs " << 1.0 * conv::ang2nm << std::endl;  // fraction * box edge (nm)
+        out << "lexpr dumpreader_pos_xu " << 1.0 * conv::ang2nm << std::endl;
         out << "lexpr dumpreader_box " << 1.0 * conv::ang2nm << std::endl;
         out << "lexpr dumpreader_vel " << 1.0 * conv::ang2nm << std::endl;
         out << "lexpr dumpreader_force " << 1.0 * conv::kcal2kj / conv::ang2nm << std::endl;
@@ -293,6 +299,52 @@ int main() {
           out << "lobs dumpreader_force " << b->getF()[k] / f << std::endl;
           out << "lobs dumpreader_box " << top.getBox()(k, k) / L << std::endl;
         }
+      } else if (cmd == "lstyle") {
+        std::string file, style;
+        double L[3], p[2][3];
+        in >> file >> style >> L[0] >> L[1] >> L[2];
+        for (auto &a : p)
+          for (double &c : a) in >> c;
+        if (!in) throw std::runtime_error("driver: short lstyle command");
+        std::string cols, place;
+        if (style == "xyz") {
+          cols = "x y z";
+          place = "dumpreader_pos";
+        } else if (style == "xs") {
+          cols = "xs ys zs";
+          place = "dumpreader_pos_xs";
+        } else if (style == "xu") {
+          cols = "xu yu zu";
+          place = "dumpreader_pos_xu";
+        } else {
+          throw std::runtime_error("driver: unknown coordinate style " + style);
+        }
+        {
+          std::ofstream o(file);
+          o.precision(17);
+          o << "ITEM: TIMESTEP\n0\nITEM: NUMBER OF ATOMS\n2\nITEM: BOX BOUNDS pp pp pp\n";
+          for (double l : L) o << "0 " << l << "\n";
+          o << "ITEM: ATOMS id type " << cols << "\n";
+          for (int a = 0; a < 2; ++a) {
+            o << (a + 1) << " 1";
+            for (int k = 0; k < 3; ++k) o << " " << (style == "xs" ? p[a][k] / L[k] : p[a][k]);
+            o << "\n";
+          }
+        }
+        Topology top;
+        top.CreateResidue("R");
+        top.RegisterBeadType("1");
+        top.CreateBead(Bead::spherical, "A", "1", 0, 1.0, 0.0);
+        top.CreateBead(Bead::spherical, "B", "1", 0, 1.0, 0.0);
+        std::unique_ptr<TrajectoryReader> r = TrjReaderFactory().Create(file);
+        if (!r) throw std::runtime_error("driver: no reader");
+        r->Open(file);
+        r->FirstFrame(top);
+        r->Close();
+        for (int a = 0; a < 2; ++a)
+          for (int k = 0; k < 3; ++k)
+            out << "lobs " << place << " " << top.getBead(a)->getPos()[k] / p[a][k] << std::endl;
+        for (int k = 0; k < 3; ++k) out << "lobs dumpreader_box " << top.getBox()(k, k) / L[k] << std::endl;
       } else if (cmd == "lwrite") {
         std::string file;
         double x, v, f, L;
